@@ -80,6 +80,8 @@ class Ctx:
     self.extra = {}
     self.t0 = time.time()
     self._cur = None
+    self.part = os.environ.get('VERIF_PART') or None
+    self.compat_extra = collections.Counter()
 
   # ---- randomness -------------------------------------------------------------------------
   def rng(self, *key) -> random.Random:
@@ -163,14 +165,73 @@ class Ctx:
     cur = self._cur or {}
     self.inconclusive.append(dict(stream=cur.get('stream'), index=cur.get('index'), reason=reason))
 
+  def run_part(self, part, env, timeout=900):
+    """Run `part` of this property in a child worker with extra environment (e.g. XLA device count) and absorb
+    its results.  The module's run(ctx) dispatches on ctx.part."""
+    fd, out = tempfile.mkstemp(prefix='vf-part-', suffix='.json')
+    os.close(fd)
+    env_extra = dict(env)
+    env_extra['VERIF_PART'] = part
+    replay_path = None
+    if self.replay is not None:
+      fd2, replay_path = tempfile.mkstemp(prefix='vf-replay-', suffix='.json')
+      with os.fdopen(fd2, 'w') as f:
+        json.dump(dict(self.replay, seed=self.seed, tier=self.tier), f)
+    p = _spawn(self.prop, self.tier, self.seed, 0, 1, out, replay_path, env_extra)
+    try:
+      stdout, _ = p.communicate(timeout=timeout)
+    except subprocess.TimeoutExpired:
+      p.kill()
+      p.communicate()
+      self.inconclusive.append(dict(stream='part:' + part, index=None, reason='watchdog %ss' % timeout))
+      return False
+    finally:
+      if replay_path:
+        os.unlink(replay_path)
+    try:
+      if p.returncode != 0:
+        raise RuntimeError('exit %s: %s' % (p.returncode, stdout.decode(errors='replace')[-1500:]))
+      with open(out) as f:
+        r = json.load(f)
+    except Exception as e:  # noqa: BLE001
+      self.inconclusive.append(dict(stream='part:' + part, index=None, reason='child failed: %r' % (e,)))
+      return False
+    finally:
+      if os.path.exists(out):
+        os.unlink(out)
+    if r.get('status') != 'ok':
+      self.inconclusive.append(dict(stream='part:' + part, index=None, reason=str(r.get('extra', {}).get('harness_error'))[-1500:]))
+    self.evaluations += r['evaluations']
+    self.distinct.update(r['distinct'])
+    for smp in r['samples']:
+      if len(self.samples) < MAX_SAMPLES:
+        self.samples.append(smp)
+    self.monitor_events.update(r['monitor_events'])
+    self.ops_covered.update(r['ops_covered'])
+    self.violations.extend(r['violations'])
+    self.violation_count += r['violation_count']
+    self.inconclusive.extend(r['inconclusive'])
+    self.skipped.update(r['skipped'])
+    self.compat_extra.update(r['compat_calls'])
+    for k, v in r['exhaustive'].items():
+      self.exhaustive[k] = self.exhaustive.get(k, True) and v
+    for k, v in r['extra'].items():
+      if isinstance(v, (int, float)) and not isinstance(v, bool):
+        self.extra[k] = self.extra.get(k, 0) + v
+      else:
+        self.extra.setdefault(k, v)
+    return True
+
   def dump(self):
     from vf import compat
+    cc = collections.Counter(compat.CALLS)
+    cc.update(self.compat_extra)
     return dict(evaluations=self.evaluations, distinct=sorted(self.distinct), samples=self.samples,
                 monitor_events=dict(self.monitor_events), ops_covered=dict(self.ops_covered),
                 violations=self.violations, violation_count=self.violation_count,
                 inconclusive=self.inconclusive[:50], inconclusive_count=len(self.inconclusive),
                 skipped=dict(self.skipped), exhaustive=self.exhaustive, extra=jsonable(self.extra),
-                compat_calls=dict(compat.CALLS), wall_s=time.time() - self.t0)
+                compat_calls=dict(cc), wall_s=time.time() - self.t0)
 
 
 # ---------------------------------------------------------------------------------------------
